@@ -11,6 +11,9 @@ TEXTS = [
     '\u0a97\u4e00 x\r\nsecond\r\n', '\u4e00\u0a97\r\nz', '\u0a0d\u0a00\r\n', 'a\u0a00\u000a',
 ]
 EMPTY_TEXT = ''
+# very long first lines (beyond 4 KiB / 8 KiB windows) with DOS endings, with and without a final newline
+LONG_TEXTS = ['y' * 8300 + '\r\nlast without newline', 'w' * 4200 + '\r\nsecond line\r\n', 'v' * 8200 + '\nunix\n']
+LONG_DIFFS = [b'+' + b'z' * 8300 + b'\r\n-q\r\n', b' ' + b'k' * 4200 + b'\r\nlast']
 
 METAS = [
     {'a': 1},
